@@ -163,9 +163,9 @@ func (c *Chan[T]) do(send bool, v any) {
 }
 func (c *Chan[T]) realValue() reflect.Value { return reflect.ValueOf(c.real) }
 
-func RecvCase[T any](c *Chan[T]) Case       { return Case{ch: c} }
-func SendCase[T any](c *Chan[T], v T) Case  { return Case{ch: c, send: true, val: v} }
-func DefaultCase() Case                      { return Case{def: true} }
+func RecvCase[T any](c *Chan[T]) Case      { return Case{ch: c} }
+func SendCase[T any](c *Chan[T], v T) Case { return Case{ch: c, send: true, val: v} }
+func DefaultCase() Case                    { return Case{def: true} }
 
 // Select models a select statement over modelled channels: it is one blocking scheduling point,
 // enabled iff some case is ready (or there is a default). Which of several ready cases fires is
